@@ -201,6 +201,33 @@ func scriptedResume(own *security.SessionCache, sid string, want bool, keyMode s
 	return ob
 }
 
+// remainClass: how long the server-side entry (own cache first, then the global one) has left.
+func remainClass(own *security.SessionCache, sid string) string {
+	var e *security.SessionEntry
+	if own != nil {
+		e, _ = own.Lookup(sid)
+	}
+	if e == nil {
+		e, _ = security.GetSessionCache().Lookup(sid)
+	}
+	if e == nil {
+		return "none"
+	}
+	if e.Expiration().IsZero() {
+		return "never"
+	}
+	rem := time.Until(e.Expiration()).Seconds()
+	switch {
+	case rem > 1770 && rem < 1830:
+		return "lease"
+	case rem > 3570 && rem < 3630:
+		return "duration"
+	case rem <= 0:
+		return "past"
+	}
+	return fmt.Sprintf("other:%d", int(rem))
+}
+
 func mutateSid(sid string, how string) string {
 	switch how {
 	case "right":
@@ -222,7 +249,7 @@ func mutateSid(sid string, how string) string {
 }
 
 func runResume(c *Ctx) error {
-	c.Res.Rule = "histories over establish(keyed/keyless) / honest resume / expire (virtual time: entry re-stored with a past expiry) / renew / invalidate / gc on a real server cache (a third of them against a server with its own isolated SessionCache plus the global fallback, with ostore/oinvalidate on the own cache), with scripted resumption requests: right id + right key, right id + wrong key, right id + no key, unknown id, id differing by one character, truncated id, with and without ResumeResponse, from another address; and byte-for-byte replays (whole, request only, truncated) of either direction of a recorded resumed connection into a fresh connection; distinct by history; non-trivial = the request differs from the legitimate one or the history has ≥2 ops"
+	c.Res.Rule = "histories over establish(keyed/keyless) / honest resume / expire (virtual time: entry re-stored with a past expiry) / renew / invalidate / gc on a real server cache (a third of the sessions established under an identity-mapping PostAuthPolicy; after each successful resumption the remaining lifetime of the entry is compared: it must be the lease) (a third of them against a server with its own isolated SessionCache plus the global fallback, with ostore/oinvalidate on the own cache), with scripted resumption requests: right id + right key, right id + wrong key, right id + no key, unknown id, id differing by one character, truncated id, with and without ResumeResponse, from another address; and byte-for-byte replays (whole, request only, truncated) of either direction of a recorded resumed connection into a fresh connection; distinct by history; non-trivial = the request differs from the legitimate one or the history has ≥2 ops"
 	var cases []Case
 	n := c.Pick(150, 2500)
 	user := ""
@@ -233,7 +260,16 @@ func runResume(c *Ctx) error {
 		log := func(o, r string) { ops = append(ops, o); real = append(real, r) }
 		log("reset", "ok")
 		keyed := c.Rng.Intn(3) != 0
-		p := realPair(cliConf(ccache, ""), srvConf(keyed), "10.0.0.1:1111")
+		estConf := srvConf(keyed)
+		if c.Rng.Intn(3) == 0 {
+			// the server application maps the authenticated identity (as server.FQUMapper does): the
+			// session must be cached, and resumed, under the identity the handshake reported
+			estConf.PostAuthPolicy = func(authUser, peerAddr string, authenticated, encrypted bool) (string, []int) {
+				return "mapped-" + authUser + "@pool.example", nil
+			}
+			c.Count("server:identity-mapped")
+		}
+		p := realPair(cliConf(ccache, ""), estConf, "10.0.0.1:1111")
 		if p.cerr != nil || p.serr != nil {
 			c.Res.Notes = append(c.Res.Notes, fmt.Sprintf("resume: establishing handshake failed: %v / %v", p.cerr, p.serr))
 			p.close()
@@ -351,8 +387,14 @@ func runResume(c *Ctx) error {
 				if ob.ok && how == "right" && (alive || aliveOwn) && (ob.user != user || !ob.auth) {
 					viol("identity-lost", "resumption did not restore the identity / authentication status of the original handshake", user+"/true", fmt.Sprintf("%s/%v", ob.user, ob.auth))
 				}
-				if ob.ok {
-					// a successful resumption renews the lease on the real entry; mirror nothing (model does it)
+				if ob.ok && how == "right" {
+					// a successful resumption puts the session on its lease: it now expires one lease
+					// from now (not later), however long the original duration was
+					cls := remainClass(own, sid)
+					log("sremain "+sid, "ok "+cls)
+					if cls != "lease" {
+						viol("lease-not-applied", "after a successful resumption the session does not expire one lease from now", "remaining lifetime = the lease (1800 s)", cls)
+					}
 				}
 			}
 		}
